@@ -74,7 +74,7 @@ class DeclGen:
             if Fraction(lo).denominator != 1 or self.coin(0.2):
                 d["minFloat"] = True
         if self.coin():
-            hi = rng.choice([4, 6, 10, 12, Fraction(5, 2), Fraction(15, 2)])
+            hi = rng.choice([4, 6, 10, 12, Fraction(5, 2), Fraction(15, 2), 0, -1])
             if lo is not None and hi < lo:
                 hi = lo + 6
             hi = Fraction(hi)
@@ -92,7 +92,7 @@ class DeclGen:
         if self.coin():
             d["minItems"] = rng.choice([0, 1, 2])
         if self.coin():
-            d["maxItems"] = rng.choice([1, 2, 3, 4])
+            d["maxItems"] = rng.choice([0, 1, 2, 3, 4])   # 0: a falsy bound must still be enforced
             if d.get("minItems") is not None and d["maxItems"] < d["minItems"]:
                 d["maxItems"] = d["minItems"] + 1
         if uniq and self.coin():
@@ -118,7 +118,7 @@ class DeclGen:
             if self.coin():
                 d["minLength"] = rng.choice([0, 1, 2, 3])
             if self.coin():
-                d["maxLength"] = rng.choice([1, 2, 3, 5])
+                d["maxLength"] = rng.choice([0, 1, 2, 3, 5])
                 if d.get("minLength") is not None and d["maxLength"] < d["minLength"]:
                     d["maxLength"] = d["minLength"]
             if self.coin():
